@@ -247,8 +247,42 @@ pub fn apply(e: &HEdit, req: &mut WireRequest) -> Option<&'static str> {
             Some("reorder-across-names")
         }
         InsertUnsigned(which, pos) => {
-            let n = UNSIGNED_NAMES[pick_idx(*which, UNSIGNED_NAMES.len())];
+            // a plain header, or one with inner structure that some component might be tempted to interpret
+            const STRUCTURED: &[(&str, &str)] = &[
+                ("content-type", "application/json; charset=utf8mb4"),
+                ("content-type", "text/plain; charset=\"utf-8\""),
+                ("content-type", "application/octet-stream; charset=binary"),
+                ("content-type", "text/html; charset=klingon"),
+                ("content-type", "multipart/form-data; boundary=x; charset=x-unknown"),
+                ("content-length", "12"),
+                ("content-encoding", "gzip"),
+                ("transfer-encoding", "chunked"),
+                ("referer", "https://example.com/from?x=1"),
+                ("user-agent", "aws-sdk-rust/1.0 os/linux"),
+                ("x-forwarded-for", "10.1.2.3, 10.4.5.6"),
+                ("x-forwarded-proto", "http"),
+                ("x-amz-content-sha256", "UNSIGNED-PAYLOAD"),
+                ("x-amz-content-sha256", "STREAMING-AWS4-HMAC-SHA256-PAYLOAD"),
+                ("x-amz-expires", "1"),
+                ("expires", "Thu, 01 Jan 1970 00:00:00 GMT"),
+                ("date", "Thu, 01 Jan 1970 00:00:00 GMT"),
+                ("x-amz-security-token", "unsolicited-token"),
+                ("x-amz-algorithm", "AWS4-HMAC-SHA256"),
+                ("x-amz-credential", "AKIDOTHER/20150830/us-east-1/service/aws4_request"),
+                ("x-amz-signedheaders", "host"),
+                ("x-amz-signature", "0000000000000000000000000000000000000000000000000000000000000000"),
+                ("expect", "100-continue"),
+                ("connection", "close, x-unsigned"),
+                ("x-http-method-override", "DELETE"),
+                ("x-original-url", "/admin"),
+            ];
             let at = pick_idx(*pos, hs.len() + 1);
+            if which % 3 == 0 {
+                let (n, v) = STRUCTURED[pick_idx(which / 3 * 3 + 2, STRUCTURED.len())];
+                hs.insert(at, (n.to_string(), B::from(v)));
+                return Some("insert-structured-header");
+            }
+            let n = UNSIGNED_NAMES[pick_idx(*which, UNSIGNED_NAMES.len())];
             hs.insert(at, (n.to_string(), B::from("whatever value")));
             Some("insert-header")
         }
